@@ -17,7 +17,7 @@ BUDGETS = {
     "C01": {"quick": {"procs": 32, "runs": 30}, "thorough": {"procs": 256, "runs": 250}},
     "C02": {"quick": {"procs": 32, "runs": 14}, "thorough": {"procs": 256, "runs": 120}},
     "C03": {"quick": {"procs": 32, "runs": 20}, "thorough": {"procs": 256, "runs": 160}},
-    "C04": {"quick": {"procs": 32, "runs": 40}, "thorough": {"procs": 256, "runs": 400}},
+    "C04": {"quick": {"procs": 32, "runs": 100}, "thorough": {"procs": 256, "runs": 400}},
     "C06": {"quick": {"procs": 32, "runs": 10}, "thorough": {"procs": 192, "runs": 80}},
     "C07": {"quick": {"procs": 32, "runs": 25}, "thorough": {"procs": 192, "runs": 150}},
     "C09": {"quick": {"procs": 32, "runs": 6}, "thorough": {"procs": 256, "runs": 60}},
